@@ -21,7 +21,7 @@ func init() {
 	register(&core.Rule{ID: "TPC-EXHAUST", Props: []string{"C11"}, Floor: 4,
 		Doc: "the acceptor handles every TwoPCRequestType (switch arm or earlier test) and every arm assigns the reply",
 		Run: runTPCExhaust})
-	register(&core.Rule{ID: "RAFT-WIRING", Props: []string{"C08"}, Floor: 12,
+	register(&core.Rule{ID: "RAFT-WIRING", Props: []string{"C08", "C07"}, Floor: 12,
 		Doc: "raftkvs bootstrap: each per-server state variable is bound, in all five archetype contexts of a server, to MakeLocalShared() of one LocalSharedManager created outside the per-context closure (optionally wrapped by MakePersistent): the five archetypes of a server act on one copy of the Raft state",
 		Run: runRaftWiring})
 }
